@@ -203,9 +203,38 @@ def trace_part(v, tier, rng):
     v.sample(dict(trace_validation="H-AIO records of %s" % os.path.basename(tests[0]), first_records=jobs[0][2][:6] if jobs else []))
 
 
+def xq_cmd(a, obs=None):
+    k = a["a"]
+    if k == "xq_add":
+        return "xq_add %d %d" % (a["id"], a["ms"])
+    if k == "xq_cancel":
+        return "xq_cancel %d" % a["id"]
+    return "xq_tick %d" % a["d"]
+
+
+def expireq_part(v, tier, rng):
+    """several timed operations on one expire queue: batches, wake-up time (spec core/ExpireQ.tla)"""
+    thorough = tier == "thorough"
+    exe = build_driver("drv_xq", ["drv_xq.c", "dee.c", "acct.c"])
+    r = tlc("core/ExpireQ.tla", "ExpireQ_mc.cfg" if thorough else "ExpireQ_q.cfg", workers=12, timeout=1500)
+    tlc_require_ok(r, "ExpireQ")
+    v.add_tlc("core/ExpireQ.tla:mc", r)
+    g = tlc_edges("core/ExpireQ.tla", "ExpireQ_gen2.cfg" if thorough else "ExpireQ_gen.cfg", timeout=3000)
+    v.cov["states"] += g["distinct"]
+    v.cov["transitions"] += len(g["edges"])
+    walks, total, covered = cover_walks(g, rng, maxlen=14, limit=None if thorough else 1200)
+    n = replay_walks(v, g, walks, exe, "xq", xq_cmd, lambda ia: "init", "core/ExpireQ.tla:gen",
+                     sig_of=lambda acts, idx, step, allowed: "expireq.%s:%s" % (acts[idx]["a"] if idx < len(acts) else "end",
+                                                                               "fired-set" if step else "?"),
+                     check_fin=False, chunk=40)
+    log("expireq: %d/%d edges covered by %d walks, %d validated" % (covered, total, len(walks), n))
+    v.cov["edge_cover_expireq"] = dict(edges=total, covered=covered, walks=len(walks), validated=n)
+
+
 _run_replay = run
 
 
 def run(v, tier, rng):
     _run_replay(v, tier, rng)
+    expireq_part(v, tier, rng)
     trace_part(v, tier, rng)
